@@ -523,6 +523,9 @@ func genLockReference(repo string) error {
 var lockRefCache *lockRef
 
 func runLockDrift(c *Ctx, pkgs []string) {
+	if !referenceConfig(c) {
+		return
+	}
 	if lockRefCache == nil {
 		b, err := os.ReadFile(filepath.Join(refDir, "locksets.json"))
 		if err != nil {
